@@ -1570,7 +1570,7 @@ class WavSequenceFactory(ContinuousWaveform):
 
 def wavs_from_path(fs, path, *args, **kwargs):
     return [WavFileFactory(fs, filename, *args, **kwargs) \
-            for filename in Path(path).glob('*.wav')]
+            for filename in sorted(Path(path).glob('*.wav'))]
 
 
 ################################################################################
